@@ -105,7 +105,10 @@ class Chipset(object):
     }
     REGBYNAME = {v: k for k, v in REG.items()}
 
-    class Error(Exception):
+    class Error(nfc.clf.TransmissionError):
+        # An error reported by the chipset. It is a TransmissionError
+        # for callers of the ContactlessFrontend when it is not
+        # handled within the driver.
         def __init__(self, errno, strerr):
             self.errno, self.strerr = errno, strerr
 
